@@ -4,7 +4,7 @@ from __future__ import annotations
 import ast
 
 from ..core import (AnalysisError, FuncInfo, Project, attr_chain, body_exits, const_int, const_str, enclosing, expand,
-                    guards_of, local_defs, term, unparse)
+                    guards_of, local_defs, term, unparse, with_helpers)
 from . import c02
 from ..intdec import LengthFacts
 
@@ -15,39 +15,15 @@ def rule_R1(ctx, prj):
     ctx.rule("R1", "LanguageTotals.add: files += 1, loc += entry.loc, functions += len(entry.measurements()), "
                    "hard_to_maintain += CP[2], unmaintainable += CP[3] with CP = make_count_profile(entry.measurements()) of "
                    "the same entry", floor=5)
-    fi = prj.func("codelimit.common.LanguageTotals:LanguageTotals.add")
-    e = fi.params()[1]
-    want = {
-        "files": {"1"},
-        "loc": {f"{e}.loc"},
-        "functions": {f"len({e}.measurements())"},
-        "hard_to_maintain": {f"make_count_profile({e}.measurements())[2]"},
-        "unmaintainable": {f"make_count_profile({e}.measurements())[3]"},
-    }
-    seen = set()
-    for n in fi.walk():
-        tgt = val = None
-        if isinstance(n, ast.AugAssign) and isinstance(n.target, ast.Attribute) and isinstance(n.op, ast.Add):
-            tgt, val = n.target, n.value
-        elif isinstance(n, ast.Assign) and isinstance(n.targets[0], ast.Attribute) and isinstance(n.value, ast.BinOp) and isinstance(n.value.op, ast.Add):
-            t = n.targets[0]
-            if unparse(n.value.left) == unparse(t):
-                tgt, val = t, n.value.right
-            elif unparse(n.value.right) == unparse(t):
-                tgt, val = t, n.value.left
-        if tgt is None or not (isinstance(tgt.value, ast.Name) and tgt.value.id == "self"):
-            continue
-        a = tgt.attr
-        if a not in want:
-            continue
-        seen.add(a)
-        t = term(fi, val)
-        if t in want[a]:
-            ctx.ok("R1", fi.site(n), f"LanguageTotals.add: {a} += {t}")
+    from ..symtotals import WANT, WORDS, describe, language_totals_add
+    inc, fi = language_totals_add(prj)
+    for a in ("files", "loc", "functions", "hard_to_maintain", "unmaintainable"):
+        if inc[a].key() == WANT[a].key():
+            ctx.ok("R1", fi.site(), f"LanguageTotals.add: {a} += {WORDS[a]} (symbolic effect of the method)")
+        elif not inc[a].terms and inc[a].const == 0:
+            ctx.viol("R1", f"LanguageTotals.add/{a}", fi.site(), f"LanguageTotals.add no longer accumulates {a}")
         else:
-            ctx.viol("R1", f"LanguageTotals.add/{a}", fi.site(n), f"{a} is increased by {t}; required {sorted(want[a])[0]}")
-    for a in sorted(set(want) - seen):
-        ctx.viol("R1", f"LanguageTotals.add/{a}", fi.site(), f"LanguageTotals.add no longer accumulates {a}")
+            ctx.viol("R1", f"LanguageTotals.add/{a}", fi.site(), f"{a} is increased by {describe(inc[a])}; required {WORDS[a]}")
 
 
 def rule_R2(ctx, prj):
@@ -72,53 +48,65 @@ def rule_R2(ctx, prj):
             ctx.instances.setdefault("R2", []).append(l)
         pr.instances = {}
     # file loc = sum of its measurements' values, at every construction site on the scan path
+    from .c05 import _is_sum_of_values
     af = prj.func("codelimit.common.Scanner:_analyze_file")
+    n = 0
     for c in af.calls():
         if attr_chain(c.func) == "SourceFileEntry" and len(c.args) >= 5:
-            loc_t, ms_t = term(af, c.args[3]), unparse(c.args[4])
-            if loc_t.replace(" ", "") in (f"sum([m.valueformin{ms_t}])", f"sum(m.valueformin{ms_t})"):
-                ctx.ok("R2", af.site(c), f"_analyze_file: entry loc = sum of the values of the same measurement list ({ms_t})")
+            n += 1
+            loc, ms = c.args[3], c.args[4]
+            forms = [(loc, ms), (expand(af, loc), expand(af, ms)), (expand(af, loc), ms)]
+            if any(_is_sum_of_values(le, me) for le, me in forms):
+                ctx.ok("R2", af.site(c), f"_analyze_file: entry loc = sum of the values of the same measurement list ({unparse(ms)})")
             else:
-                ctx.viol("R2", "_analyze_file/loc", af.site(c), f"file line total is {loc_t}, not the sum of the lengths of the measurements stored with it ({ms_t})")
+                ctx.viol("R2", "_analyze_file/loc", af.site(c), f"file line total is {term(af, loc)[:80]}, not the sum of the lengths of the measurements stored with it ({unparse(ms)})")
+    if not n:
+        raise AnalysisError("_analyze_file: SourceFileEntry(...) construction not found")
 
 
 def rule_R3(ctx, prj):
     ctx.rule("R3", "each ScanTotals.total_X sums field X over all language totals; merge_profiles adds position i to "
                    "position i for all four positions", floor=6)
+    from ..absint import Lin, MiniInterp, PyRaise, Sym, Unknown
     st = prj.cls("codelimit.common.ScanTotals:ScanTotals")
+    lt = prj.cls("codelimit.common.LanguageTotals:LanguageTotals")
     pairs = {"total_files": "files", "total_functions": "functions", "total_loc": "loc",
              "total_hard_to_maintain": "hard_to_maintain", "total_unmaintainable": "unmaintainable"}
+    flds = list(pairs.values())
     for m, fld in pairs.items():
-        fi = st.methods.get(m)
+        fi = st.find_method(m)
         if fi is None:
             raise AnalysisError(f"ScanTotals.{m} not found")
-        rets = [r for r in fi.walk() if isinstance(r, ast.Return) and r.value is not None]
-        e = expand(fi, rets[0].value) if rets else None
-        ok = False
-        if isinstance(e, ast.Call) and attr_chain(e.func) == "sum" and e.args and isinstance(e.args[0], (ast.ListComp, ast.GeneratorExp)):
-            comp = e.args[0]
-            g = comp.generators[0]
-            ok = (isinstance(comp.elt, ast.Attribute) and comp.elt.attr == fld and unparse(comp.elt.value) == unparse(g.target)
-                  and unparse(g.iter) == "self._languages_totals.values()" and not g.ifs and len(comp.generators) == 1)
-        if ok:
-            ctx.ok("R3", fi.site(), f"ScanTotals.{m} = sum(.{fld}) over all languages")
+        # two generic language totals stand for the collection (the methods treat the elements uniformly)
+        ts = [Sym(f"T{i}", _cls=lt, language=f"lang{i}", **{f: Sym(f"T{i}.{f}") for f in flds}) for i in (1, 2)]
+        it = MiniInterp(prj)
+        try:
+            me = it.construct(st, [{"lang1": ts[0], "lang2": ts[1]}], {}, None, fi)
+            r = it.getattr(me, m, fi, None)
+            if not fi.is_property():
+                r = it.call_callable(r, [], {})
+            got = Lin.of(r)
+        except (Unknown, PyRaise) as e:
+            raise AnalysisError(f"ScanTotals.{m}: cannot evaluate symbolically ({e})")
+        want = Lin({f"T1.{fld}": 1, f"T2.{fld}": 1})
+        if got.key() == want.key():
+            ctx.ok("R3", fi.site(), f"ScanTotals.{m} = sum(.{fld}) over all languages (evaluated on two generic language totals: {got})")
         else:
-            ctx.viol("R3", f"ScanTotals.{m}", fi.site(), f"{m} returns {unparse(e)[:90] if e is not None else 'nothing'}; required the sum of .{fld} over self._languages_totals.values()")
+            ctx.viol("R3", f"ScanTotals.{m}", fi.site(), f"{m} evaluates to {got} for the language totals T1, T2; required T1.{fld} + T2.{fld}")
     mp = prj.func("codelimit.common.utils:merge_profiles")
-    a, b = mp.params()[:2]
-    rets = [r for r in mp.walk() if isinstance(r, ast.Return) and r.value is not None]
-    e = rets[0].value if rets else None
-    ok = False
-    if isinstance(e, ast.List) and len(e.elts) == 4:
-        ok = all(isinstance(x, ast.BinOp) and isinstance(x.op, ast.Add) and {unparse(x.left), unparse(x.right)} == {f"{a}[{i}]", f"{b}[{i}]"}
-                 for i, x in enumerate(e.elts))
-    elif isinstance(e, ast.ListComp):
-        t = unparse(e).replace(" ", "")
-        ok = t in (f"[x+yforx,yinzip({a},{b})]", f"[{a}[i]+{b}[i]foriinrange(4)]", f"[{a}[i]+{b}[i]foriinrange(len({a}))]")
-    if ok:
-        ctx.ok("R3", mp.site(), "merge_profiles adds the two profiles position by position")
+    xs = [Sym(f"a{i}") for i in range(4)]
+    ys = [Sym(f"b{i}") for i in range(4)]
+    try:
+        r = MiniInterp(prj).call(mp, [list(xs), list(ys)], {})
+        r = r.rest() if hasattr(r, "rest") else r
+        got = [Lin.of(x).key() for x in r]
+    except (Unknown, PyRaise, TypeError) as e:
+        raise AnalysisError(f"merge_profiles: cannot evaluate symbolically ({e})")
+    want = [Lin({f"a{i}": 1, f"b{i}": 1}).key() for i in range(4)]
+    if got == want:
+        ctx.ok("R3", mp.site(), "merge_profiles adds the two profiles position by position (evaluated on symbolic cells)")
     else:
-        ctx.viol("R3", "merge_profiles", mp.site(), f"merge_profiles returns {unparse(e)[:100] if e is not None else 'nothing'}; required [a[i] + b[i] for i in 0..3]")
+        ctx.viol("R3", "merge_profiles", mp.site(), f"merge_profiles([a0..a3], [b0..b3]) evaluates to {[repr(Lin.of(x)) for x in r]}; required [a[i] + b[i] for i in 0..3]")
 
 
 def rule_R4(ctx, prj):
@@ -128,12 +116,12 @@ def rule_R4(ctx, prj):
     af = prj.func(f"{CB}.add_file")
     e = af.params()[1]
     src = unparse(af.node)
-    checks = [
-        (f"self.files[{e}.path] = {e}", "entry stored under its own path"),
-        (f"self.totals[{e}.language].add({e})", "language totals updated with the entry"),
-    ]
-    for needle, what in checks:
-        hits = [n for n in af.walk() if isinstance(n, ast.stmt) and unparse(n) == needle]
+    stores = [n for n in af.walk() if isinstance(n, ast.Assign) and isinstance(n.targets[0], ast.Subscript)
+              and term(af, n.targets[0].value) == "self.files" and term(af, n.targets[0].slice) == f"{e}.path" and term(af, n.value) == e]
+    adds = [c for c in af.calls() if isinstance(c.func, ast.Attribute) and c.func.attr == "add" and len(c.args) == 1 and term(af, c.args[0]) == e
+            and term(af, c.func.value) == f"self.totals[{e}.language]"]
+    for hits, what, needle in ((stores, "entry stored under its own path", f"self.files[{e}.path] = {e}"),
+                               (adds, "language totals updated with the entry", f"self.totals[{e}.language].add({e})")):
         if hits and not enclosing(af, hits[0], (ast.If, ast.For, ast.While, ast.Try)):
             ctx.ok("R4", af.site(hits[0]), f"add_file: {what}")
         else:
@@ -165,7 +153,7 @@ def rule_R4(ctx, prj):
     if crea and regs and rec and all(under_new(x) for x in crea + regs):
         recv = term(fo, regs[0].func.value)
         arg = term(fo, regs[0].args[0])
-        if "get_parent_folder(" in recv and arg == f"get_basename({p})" and "get_parent_folder(" in unparse(rec[0].args[0]):
+        if "get_parent_folder(" in recv and arg == f"get_basename({p})" and "get_parent_folder(" in term(fo, rec[0].args[0]):
             ctx.ok("R4", fo.site(regs[0]), "add_folder: new folder created, registered once under its parent by its base name, parent ensured recursively")
         else:
             ctx.viol("R4", "add_folder/registration", fo.site(regs[0]), f"a new folder is registered as {arg} in {recv[:60]}; required get_basename(path) in its parent folder")
@@ -189,16 +177,30 @@ def rule_R5(ctx, prj):
                    "never again on the same object and never before the last add_file", floor=3)
     ag = prj.func(f"{CB}.aggregate")
     inner = list(ag.nested.values())
+    for h in with_helpers(prj, ag)[1:]:
+        inner.append(h)
+        inner += list(h.nested.values())
     rec_ok = False
+
+    def sources(f, e, depth=0):
+        out = [e]
+        if depth < 3:
+            for n in ast.walk(e):
+                if isinstance(n, ast.Name):
+                    for v, _ in local_defs(f, n.id):
+                        if v is not None:
+                            out += sources(f, v, depth + 1)
+        return out
     for f in inner:
         rc = [c for c in f.calls() if f in prj.resolve_call(f, c)[0]]
-        merges = [c for c in f.calls() if attr_chain(c.func) == "merge_profiles"]
+        merges = [c for c in f.calls() if (attr_chain(c.func) or "").split(".")[-1] == "merge_profiles"]
         if rc and merges:
-            uses_rec = any(any(x is r for x in ast.walk(m)) for m in merges for r in rc)
-            file_side = any("profile()" in unparse(m) for m in merges)
+            srcs = [x for m in merges for a in m.args for x in sources(f, a)]
+            uses_rec = any(any(x is r for x in ast.walk(sx)) for sx in srcs for r in rc)
+            file_side = any(".profile()" in unparse(sx) for sx in srcs)
             if uses_rec and file_side:
                 rec_ok = True
-                ctx.ok("R5", f.site(), f"aggregate: folder profile = merge of file profiles and of the recursive result for each sub-folder")
+                ctx.ok("R5", f.site(), f"aggregate ({f.local}): folder profile = merge of file profiles and of the recursive result for each sub-folder")
     if not rec_ok:
         # iterative form: needs a children-first order that does not depend on how names sort
         loops = [n for n in ag.walk() if isinstance(n, ast.For) and "self.tree" in unparse(n.iter)]
@@ -232,7 +234,15 @@ def rule_R5(ctx, prj):
         else:
             ctx.viol("R5", f"{f.local}/aggregate-twice", f.site(aggs[-1]), "aggregate() is applied more than once to the same codebase: folder profiles are added to, never reset, so they double")
     # nobody else aggregates (scan_path / scan_codebase return NEW codebases; renderers get AGGREGATED ones)
-    callers = {q for q in prj.callgraph.callers_of(f"{CB}.aggregate")}
+    from ..inline import baseline_names
+    base = baseline_names()
+    callers, todo = set(), list(prj.callgraph.callers_of(f"{CB}.aggregate"))
+    while todo:                       # a newly extracted helper stands for the functions that call it
+        q = todo.pop()
+        if q in base or not prj.callgraph.callers_of(q):
+            callers.add(q)
+        else:
+            todo += [x for x in prj.callgraph.callers_of(q) if x not in callers]
     extra = callers - {"codelimit.commands.scan:scan_command", "codelimit.common.report.ReportReader:ReportReader.from_json"}
     for q in sorted(extra):
         ctx.viol("R5", f"aggregate<-{q.split(':')[1]}", prj.funcs[q].site(), f"{q} also aggregates: a codebase that passes through scan_command / from_json as well is aggregated twice")
